@@ -12,7 +12,17 @@ import (
 // signatures this property's check reports (the scenarios always evaluate every oracle).
 func Main(prop string, sigPrefixes []string) {
 	run := hlib.StartParallel(prop, 14)
-	n := run.N
+	RunAll(run, prop, sigPrefixes, 0)
+	run.Finish(Rule)
+}
+
+const Rule = "producer scenario = f(seed): brokers 1-3, partitions 1-4, Retry.Max 0-5, flush settings, idempotent, acks, version, codec, interceptors, 1-60 messages in bursts, fault script over the first 8 produce requests (retriable/fatal codes with or without append, connection drop before/after append, lost acknowledgement, leader move, metadata failure), optional early close. non-trivial = distinct (config class, fault kinds, outcome mix) in which at least one request was faulted or a message retried"
+
+// RunAll runs the producer scenarios of this worker (n = 0: tier default).
+func RunAll(run *hlib.Run, prop string, sigPrefixes []string, n int) {
+	if n == 0 {
+		n = run.N
+	}
 	if n == 0 {
 		n = 250
 		if run.Tier == "thorough" {
@@ -69,7 +79,6 @@ func Main(prop string, sigPrefixes []string) {
 		traces++
 	}
 	run.Set("traces_validated", traces)
-	run.Finish("scenario = f(seed): brokers 1-3, partitions 1-4, Retry.Max 0-5, flush settings, idempotent, acks, version, codec, interceptors, 1-60 messages in bursts, fault script over the first 8 produce requests (retriable/fatal codes with or without append, connection drop before/after append, lost acknowledgement, leader move, metadata failure), optional early close. non-trivial = distinct (config class, fault kinds, outcome mix) in which at least one request was faulted or a message retried")
 }
 
 func classify(run *hlib.Run, res *Result) {
